@@ -9,11 +9,12 @@ from resolve import type_head
 
 
 class RngObj:
-    __slots__ = ('kind', 'seed')
+    __slots__ = ('kind', 'seed', 'count')
 
     def __init__(self, kind, seed=None):
         self.kind = kind
         self.seed = seed
+        self.count = 0
 
     def __repr__(self):
         return 'Rng(%s)' % self.kind
@@ -146,7 +147,23 @@ def sample_weighted(ctx, rng, dist):
         pos = ctx.m.fp_binop('Gt', w, FP(0.0, w.ty)) if isinstance(w, FP) else ctx.m.int_binop('Gt', w, Int(0, w.ty))
         if ctx.branch(pos):
             cands.append(i)
+    # a generator is a function of its seed: when the harness asks for it (machine.rng_replay_streams), the k-th
+    # weighted draw of two generators created from the identical seed term over the identical candidates is the same
+    r = ctx.m.peel(rng)
+    key = None
+    if getattr(ctx.m, 'rng_replay_streams', False) and isinstance(r, RngObj) and r.kind == 'seeded' and r.seed is not None:
+        sd = r.seed.v if isinstance(r.seed, Int) else r.seed
+        key = (sd if isinstance(sd, int) else sd.sexpr(), r.count, tuple(cands))
+        r.count += 1
+        memo = getattr(ctx, 'rng_stream_memo', None)
+        if memo is None:
+            memo = ctx.rng_stream_memo = {}
+        if key in memo:
+            note_draw(ctx, rng, 'weighted', memo[key])
+            return Int(memo[key], 'usize')
     k = ctx.choice(len(cands), 'weighted-sample')
+    if key is not None:
+        ctx.rng_stream_memo[key] = cands[k]
     note_draw(ctx, rng, 'weighted', cands[k])
     return Int(cands[k], 'usize')
 
